@@ -25,5 +25,12 @@ def run(tier):
                 rule="one path = one (rate class, draw classes, script shape, value shapes)", describe=H.describe),
             Job("harness.c18", "sampling_two", H.shards("sampling_two"), 240,
                 bounds=dict(frames="two live frames of the same generator function", interleavings=3, rate="None | 1 | all N >= 2 (symbolic)", draws="4 symbolic draws"),
-                rule="one path = (rate class, draw classes, interleaving, value shapes)", describe=H.describe)]
-    return run_check(PID, tier, jobs, H.FUNCTIONS, ASSUMPTIONS)
+                rule="one path = (rate class, draw classes, interleaving, value shapes)", describe=H.describe),
+            Job("harness.c18", "abandon", H.shards("abandon"), 240,
+                bounds=dict(script="generator abandoned while suspended (close delivered or not), frame object dies, a new frame (placed by an adversarial "
+                                   "allocator at the dead frame's address when possible) makes a complete call", rate="None | 1 | all N >= 2 (symbolic)", draws="4 symbolic draws"),
+                rule="one path = (rate class, draw classes, script, value shapes)", describe=H.describe, max_samples=10**6, validate_limit=200)]
+    return run_check(PID, tier, jobs, H.FUNCTIONS, ASSUMPTIONS + [
+        "abandon: no obligation is checked for the abandoned call itself (CPython reports the close of a suspended generator as return@YIELD_VALUE "
+        "with None, indistinguishable from a yield); the NEW call must take exactly one sampling draw and be traced with its own values. Address "
+        "reuse is searched for by allocating up to 300 frame objects; explored paths are re-executed natively"])
